@@ -12,6 +12,7 @@ import (
 	"fmt"
 	"math/big"
 	"os"
+	"path/filepath"
 	"regexp"
 	"sort"
 	"strconv"
@@ -221,6 +222,42 @@ func findPattern(v interface{}) string {
 func BindSignature(sig, key, payload interface{}) {}
 func BindParsed(v interface{})                    {}
 func SetStub(name string, v interface{})          {}
+
+// PublishedExtension reads the definition of an extension key from the published files under
+// data/addons, data/regimes and data/catalogues: its allowed codes and / or its pattern.
+func PublishedExtension(key string) (values []string, pattern string, found bool) {
+	for _, dir := range []string{"addons", "regimes", "catalogues"} {
+		files, _ := filepath.Glob("/repo/data/" + dir + "/*.json")
+		sort.Strings(files)
+		for _, f := range files {
+			data, err := os.ReadFile(f)
+			if err != nil {
+				continue
+			}
+			var doc struct {
+				Extensions []struct {
+					Key     string `json:"key"`
+					Pattern string `json:"pattern"`
+					Values  []struct {
+						Code string `json:"code"`
+					} `json:"values"`
+				} `json:"extensions"`
+			}
+			if json.Unmarshal(data, &doc) != nil {
+				continue
+			}
+			for _, e := range doc.Extensions {
+				if e.Key == key {
+					for _, v := range e.Values {
+						values = append(values, v.Code)
+					}
+					return values, e.Pattern, true
+				}
+			}
+		}
+	}
+	return nil, "", false
+}
 
 // DivFloor is floor(a/b) for b > 0 over mathematical integers.
 func DivFloor(a, b int64) int64 {
